@@ -1,5 +1,6 @@
 """C15 — client peer pool: bounded, never hands out closed peers, End/Close always returns and
-closes everything, failed rendezvous never kills the client (client/lib peers.go, webrtc.go)."""
+closes everything, failed rendezvous is reported, retried and never kills the client (client/lib peers.go,
+webrtc.go, snowflake.go connectLoop; the event listener of client/snowflake.go)."""
 import itertools
 import os
 import threading
@@ -51,6 +52,9 @@ def peers_prop(line, impl, model):
             return "call-panic|a call panicked (%s)" % where
         if t in ("nilnil", "unknown") or t.endswith(":unknown"):
             return "bad-result|Collect/Pop returned something that is neither a peer nor an error (%s)" % where
+        if op == "c+" and t == "fail":
+            return ("no-retry-after-failure|Collect returned a rendezvous failure although this time the dialer had a peer to give "
+                    "(an earlier failed attempt must not latch) (%s)" % where)
         if op in ("c+", "c-", "cb"):
             if end_started and t not in ("refused", "skip"):
                 return "collect-after-end|Collect started after End began was not refused: %s (%s)" % (t, where)
@@ -119,6 +123,11 @@ def connect_prop(line, impl, model):
         return "driver-panic|implementation panicked: " + impl[:200]
     f = dict(p.split("=", 1) for p in impl.split(" ") if "=" in p)
     res = f.get("res")
+    if f.get("term") == "1":
+        return ("client-process-terminated|rendering the events of the attempt as the client binary's logger does (String() on every event) "
+                "panicked on the goroutine that emitted them: a failed attempt terminates the client process (ice=%s rendezvous=%s events=%s)" % (ice, rv, f.get("events")))
+    if "failed?nil" in f.get("events", "").split(","):
+        return "failure-event-without-error|EventOnSnowflakeConnectionFailed was emitted with a nil Error (ice=%s rendezvous=%s)" % (ice, rv)
     if res == "panic":
         if ice in INVALID_ICE:
             return "nil-peerconnection-deref|NewWebRTCPeerWithEvents panicked for an ICE configuration the WebRTC library rejects (%s): a failed attempt must be an error" % ice
@@ -141,7 +150,48 @@ CLOSE_WHAT = {
     "holdgood": "a peer being collected", "none": "healthy connection", "sess": "the smux session had died before",
     "pconn": "the packet conn had been closed before", "stream": "the stream had been closed before",
     "c": "Close once", "cc": "Close twice", "c2": "two overlapping Close calls",
+    "ice": "unusable ICE configuration (every attempt fails)", "unreach": "broker unreachable (connection dropped without an answer)",
+    "refuse": "broker refusing (HTTP 503)", "badjson": "malformed answer (not a poll response)",
+    "badsdp": "malformed answer (not a usable session description)", "noopen": "data channel never opening",
 }
+# retry scenarios: does a failed attempt of the kind tell the event listeners? (SetRemoteDescription refusing the answer is
+# only returned to connectLoop, which logs it)
+RETRY_EVENTED = ("ice", "unreach", "refuse", "badjson", "noopen")
+
+
+def retry_prop(spec, sp, r):
+    """scenario <max>.<failure>.<k>.retry: k failed attempts, then a proxy"""
+    kind, k = sp[1], int(sp[2])
+    where = "scenario %s: Max=%s, the first %d rendezvous attempt(s) fail: %s" % (spec, sp[0], k, CLOSE_WHAT.get(kind, kind))
+    f = dict(p.split("=", 1) for p in r.split(";") if "=" in p)
+    try:
+        att, peer, opn, melt, nilerr = [int(f[x]) for x in ("att", "peer", "open", "melt", "nilerr")]
+        ret = int(f["ret"].split("/")[0])
+    except (KeyError, ValueError):
+        return None
+    evs = [] if f.get("ev", "-") == "-" else f["ev"].split("+")
+    if f.get("term") == "1":
+        return ("client-process-terminated|rendering the events as the client binary's logger does (String() on every event) panicked on the "
+                "collecting goroutine: a failed attempt terminates the client process (%s; events %s)" % (where, f.get("ev")))
+    if nilerr > 0 or "failed?nil" in evs:
+        return "failure-event-without-error|EventOnSnowflakeConnectionFailed was emitted with a nil Error (%s)" % where
+    if att < k + 1:
+        return ("no-retry-after-failure|the client made %d rendezvous attempt(s) and then none for more than a ReconnectTimeout although the "
+                "connection was not closed: a failed attempt must be retried (%s)" % (att, where))
+    if kind != "ice" and peer < 1:
+        return "no-retry-after-failure|attempt %d met a proxy but the client holds no peer (%s; events %s)" % (k + 1, where, f.get("ev"))
+    flagged = sum(1 for e in evs if e.endswith("!") or e.startswith("failed"))
+    want = (k + 1) if kind == "ice" else k
+    if kind in RETRY_EVENTED and flagged < want:
+        return "failure-not-reported|%d failed attempt(s) but only %d failure event(s) reached the listeners (%s; events %s)" % (want, flagged, where, f.get("ev"))
+    if ret < 1:
+        return "close-did-not-return|Close did not return within 15 s (%s)" % where
+    if opn > 0:
+        return "close-leaves-peer-open|Close returned but %d peer(s) are still open (%s)" % (opn, where)
+    if melt != 1:
+        return "close-leaves-collection-running|Close returned but Melted() is not closed (%s)" % where
+    return None
+
 
 
 def close_prop(line, impl, model):
@@ -161,12 +211,22 @@ def close_prop(line, impl, model):
             return "close-panic|Dial/Close panicked (%s)" % where
         if r.startswith("setup="):
             continue     # the scenario could not be set up: left to the comparison with the model
+        if sp[3] == "retry":
+            bad = retry_prop(spec, sp, r)
+            if bad:
+                return bad
+            continue
         f = dict(p.split("=", 1) for p in r.split(";") if "=" in p)
         try:
             ret, n = [int(x) for x in f["ret"].split("/")]
             inflight, melt, opn, after, late = [int(f[k]) for k in ("inflight", "melt", "open", "after", "late")]
         except (KeyError, ValueError):
             continue
+        if f.get("term") == "1":
+            return ("client-process-terminated|rendering the events as the client binary's logger does (String() on every event) panicked on the "
+                    "goroutine that emitted them: the client process is terminated (%s)" % where)
+        if f.get("nilerr", "0") != "0":
+            return "failure-event-without-error|EventOnSnowflakeConnectionFailed was emitted with a nil Error (%s)" % where
         if ret < n:
             return "close-did-not-return|%d of %d Close calls did not return within 15 s although the rendezvous attempt in flight was over after 1.5 s (%s)" % (n - ret, n, where)
         if late > 0 or after > 1:
@@ -366,19 +426,41 @@ CLOSE_QUICK = [
     "1.holdgood.sess.cc",
 ]
 
+# <max>.<failure>.<k>.retry — k failed rendezvous attempts of the given kind, ReconnectTimeout (10 s) apart, then a proxy: they run in the
+# same batch, concurrently with the close scenarios (which watch the broker for 2 x ReconnectTimeout anyway)
+RETRY_QUICK = [
+    "1.ice.2.retry",        # unusable ICE configuration (-ice ""): every attempt fails before the broker is asked, and is made again
+    "1.unreach.2.retry",    # broker unreachable twice, then a proxy
+    "2.refuse.2.retry",     # broker refusing
+    "1.badjson.1.retry",    # malformed answer: not a poll response
+    "2.badsdp.2.retry",     # malformed answer: not a session description (reported to connectLoop only)
+    "1.noopen.2.retry",     # the data channel never opens (DataChannelTimeout, 10 s, each time), then a proxy whose channel opens
+    "2.noopen.1.retry",
+    "1.refuse.0.retry",     # no failure at all: the first attempt meets the proxy
+]
+RETRY_KINDS = ("ice", "unreach", "refuse", "badjson", "badsdp", "noopen")
+
 
 def gen_close(ctx):
     """batches of scenarios for `closeconn batch`; a batch takes ~30 s whatever its size"""
     if ctx.tier != "thorough":
-        return [CLOSE_QUICK], ["close-api-directed"]
+        return [CLOSE_QUICK + RETRY_QUICK], ["close-api-directed"]
     allsc = ["%d.%s.%s.%s" % (m, k, p, c) for m in (1, 2, 3) for k in ("fail", "good", "hold", "holdgood")
              for p in ("none", "sess", "pconn", "stream") for c in ("c", "cc", "c2")]
     rest = [s for s in allsc if s not in CLOSE_QUICK]
     ctx.rng.shuffle(rest)
-    batches, kinds = [CLOSE_QUICK], ["close-api-directed"]
+    batches, kinds = [CLOSE_QUICK + RETRY_QUICK], ["close-api-directed"]
+    # every failure kind x k = 0..3 x Max 1, 2 (k = 3: 30 s of waiting) ride along with the close scenarios
+    retry = ["%d.%s.%d.retry" % (m, kd, k) for m in (1, 2) for kd in RETRY_KINDS for k in (0, 1, 2, 3)]
+    retry = [r for r in retry if r not in RETRY_QUICK]
+    ctx.rng.shuffle(retry)
     for i in range(0, len(rest), 24):
-        batches.append(rest[i:i + 24])
+        batches.append(rest[i:i + 24] + retry[:8])
+        retry = retry[8:]
         kinds.append("close-api-product")
+    if retry:
+        batches.append(retry)
+        kinds.append("retry-product")
     return batches, kinds
 
 
@@ -394,21 +476,35 @@ def run(ctx):
         "model = coq/Model/Peers.v (interleaving machine, V1 = code with proposed-fixes/C15-*.diff), coq/Model/Connect.v and coq/Model/CloseConn.v (SnowflakeConn.Close over the Peers machine); tie = correspondence on scripted schedules run to quiescence after each op, and on Dial/Close scenarios through the exported API",
         "one collector thread (connectLoop) per Peers; WebRTCPeer.Close and library calls return",
         "scripts whose outcome depends on the Go scheduler (flagged by the model adapter) are not compared",
-        "failures of CreateDataChannel/CreateOffer/SetLocalDescription are covered by the theorem but cannot be provoked from outside pion, so the correspondence does not exercise them",
+        "failures of CreateDataChannel/CreateOffer/SetLocalDescription are covered by the theorem but cannot be provoked in the unmodified code (only webrtc.Configuration{ICEServers} reaches pion; reasons in the header of coq/Properties/C15.v), so the correspondence does not exercise them",
+        "every connect / close / retry scenario has an event listener that does what client/snowflake.go's ptEventLogger does (pt.Log(pt.LogSeverityNotice, e.String()), goptlib's Stdout redirected to io.Discard); a panic in it is caught and reported as term=1 (key client-process-terminated): in the client binary it would end the process",
+        "DataChannelTimeout and ReconnectTimeout are constants (10 s each), not variables: the driver cannot shorten them; the scenarios that wait for them (connect 'noopen', retry scenarios: up to 2 failures 10 s apart) run in background driver processes while the peers scripts run, so they add no wall time",
+        "retry scenarios: 'unreach' = the scripted broker drops the connection without an HTTP answer; 'ice' = ICEAddresses [\"\"] (what -ice \"\" gives): every attempt fails before the broker is asked; attempts are counted as EventOnOfferCreated events",
     ]
-    # The close scenarios mostly wait (two ReconnectTimeouts each): the driver is started on them now, in the
-    # background, and its answers are compared at the end.
+    # The close / retry scenarios mostly wait (ReconnectTimeouts): the driver is started on them now, in the
+    # background, and its answers are compared at the end.  The same goes for the connect cases that wait for a
+    # real timer (DataChannelTimeout = 10 s, a constant the driver cannot shorten; the STUN query to a closed
+    # port): a second background driver process, so that they cost no wall time.
     batches, b_kinds = gen_close(ctx)
     b_lines = ["closeconn batch " + ",".join(b) for b in batches]
-    box = {}
+    c_lines, c_kinds = gen_connect(ctx)
+    slow = [i for i, l in enumerate(c_lines) if l.split(" ")[2] == "stun" or l.split(" ")[3] == "noopen"]
+    s_lines, s_kinds = [c_lines[i] for i in slow], [c_kinds[i] for i in slow]
+    c_lines, c_kinds = ([l for i, l in enumerate(c_lines) if i not in slow], [k for i, k in enumerate(c_kinds) if i not in slow])
 
-    def close_worker():
-        try:
-            box["res"] = vlib.run_impl(exe, b_lines, args=TEST_ARGS)
-        except Exception as e:      # a timeout of the driver: reported as a driver crash below
-            box["res"] = (1, [], str(e))
-    th = threading.Thread(target=close_worker)
-    th.start()
+    def background(lines):
+        box = {}
+
+        def worker():
+            try:
+                box["res"] = vlib.run_impl(exe, lines, args=TEST_ARGS)
+            except Exception as e:      # a timeout of the driver: reported as a driver crash below
+                box["res"] = (1, [], str(e))
+        th = threading.Thread(target=worker)
+        th.start()
+        return th, box
+    th, box = background(b_lines)
+    th2, box2 = background(s_lines)
     lines, kinds = gen_peers(ctx)
     # directed scenarios first; if they already fail, the bulk is cut short (a defect that makes calls
     # block costs one watchdog period per op, which would otherwise take very long)
@@ -419,21 +515,25 @@ def run(ctx):
         rest_l, rest_k = rest_l[:300], rest_k[:300]
         ctx.extra["bulk_cut_short_after_directed_failures"] = True
     ctx.correspond(exe, rest_l, rest_k, label="peers", prop=prop, key_of=key_of, impl_args=TEST_ARGS)
-    c_lines, c_kinds = gen_connect(ctx)
     ctx.correspond(exe, c_lines, c_kinds, label="connect", prop=prop, key_of=key_of, impl_args=TEST_ARGS, crosscheck=20)
-    th.join()
-    ctx.extra["close_api_scenarios"] = sum(len(b) for b in batches)
-    rc, b_out, b_err = box["res"]
     os.makedirs(vlib.TMP, exist_ok=True)
-    stored = os.path.join(vlib.TMP, "c15_close_%d.out" % os.getpid())
-    with open(stored, "w") as fh:
-        fh.write("".join(l + "\n" for l in b_out))
-    if rc != 0:
-        ctx.violation("driver-crash", "implementation driver died on the close scenarios (rc=%s): %s" % (rc, b_err[-600:]),
-                      dict(label="close-api", case=None, stderr=b_err[-2000:]))
-    # the stored answers of the driver are what is compared with the model here
-    ctx.correspond("/bin/cat", b_lines, b_kinds, label="close-api", prop=prop, key_of=key_of, impl_args=[stored], crosscheck=4)
-    os.remove(stored)
+
+    def compare_stored(th, box, lines, kinds, label, crosscheck):
+        th.join()
+        rc, out, err = box["res"]
+        stored = os.path.join(vlib.TMP, "c15_%s_%d.out" % (label, os.getpid()))
+        with open(stored, "w") as fh:
+            fh.write("".join(l + "\n" for l in out))
+        if rc != 0:
+            ctx.violation("driver-crash", "implementation driver died on the %s scenarios (rc=%s): %s" % (label, rc, err[-600:]),
+                          dict(label=label, case=None, stderr=err[-2000:]))
+        # the stored answers of the driver are what is compared with the model here
+        ctx.correspond("/bin/cat", lines, kinds, label=label, prop=prop, key_of=key_of, impl_args=[stored], crosscheck=crosscheck)
+        os.remove(stored)
+    compare_stored(th2, box2, s_lines, s_kinds, "connect-timers", 4)
+    ctx.extra["close_api_scenarios"] = sum(len(b) for b in batches)
+    ctx.extra["retry_scenarios"] = sum(1 for b in batches for x in b if x.endswith(".retry"))
+    compare_stored(th, box, b_lines, b_kinds, "close-api", 4)
     # keep the replay file readable: at most 3 failing inputs per key, shortest first
     per_key, kept = {}, []
     for v in sorted(ctx.violations, key=lambda v: len(str(v["replay"].get("case")))):
